@@ -668,6 +668,22 @@ fn main() {
                 let own = lay_reply(&s, &s);
                 writeln!(out, "(laycompat {} {})\t{}", hex(&b), hex(&b), own).unwrap();
                 *stats.entry(format!("layout-self-{}", own.trim_matches(|c| c == '(' || c == ')').replace(' ', "-"))).or_default() += 1;
+                // a change of the data description that leaves every layout fact alone (C13)
+                if diff_reply(&s, &s, false) == "(ok same)" {
+                    for _ in 0..2 {
+                        if let Some((kind, m)) = mutate(&mut r, &s) {
+                            let bm = ser_schema(&m, 2);
+                            let d = diff_reply(&s, &m, false);
+                            let d2 = diff_reply(&m, &s, false);
+                            writeln!(out, "(diff {} {} false)\t{}", hex(&b), hex(&bm), d).unwrap();
+                            writeln!(out, "(diff {} {} false)\t{}", hex(&bm), hex(&b), d2).unwrap();
+                            *stats.entry(format!("layout-complete-mut-{}", kind)).or_default() += 1;
+                            if d != "(ok differ)" || d2 != "(ok differ)" {
+                                writeln!(out, "!C13 mutation-not-detected kind={} a={} b={} got={}/{}", kind, hex(&b), hex(&bm), d, d2).unwrap();
+                            }
+                        }
+                    }
+                }
                 for _ in 0..3 {
                     if let Some((kind, lm)) = mutate_layout(&mut r, &ls) {
                         let m = lm.build();
@@ -905,6 +921,17 @@ fn main() {
                 }
             }
             for (key, members) in fams.iter() {
+                // every definition is first used at its own version, the way a program that has been running for a
+                // while has: what an older version is written as must not depend on what was done before (C18)
+                for ei in members.iter() {
+                    let i = ei.family.as_ref().unwrap().1;
+                    let mut r = Rng::new(name_seed(a.seed, key, 7_000_000 + i as u64));
+                    let (wire, _canon, res) = (ei.gen_enc)(&mut r, a.size, i);
+                    if let Ok(bytes) = res {
+                        writeln!(out, "(enc @{} {} {})\t(ok {})", ei.name, i, wire, hex(&bytes)).unwrap();
+                        *stats.entry("warm-up".into()).or_default() += 1;
+                    }
+                }
                 for ei in members.iter() {
                     let i = ei.family.as_ref().unwrap().1;
                     for ej in members.iter() {
